@@ -23,7 +23,7 @@ RULE = (
     "reflection), every dimensionless descriptor and the combinatorics are unchanged; centre setters translate only; a target that "
     "cannot be honoured raises ValueError (RuntimeError when the underlying ball does not exist) and leaves the instance dictionary "
     "bit-identical; the x2, x1e-3 and centre assignments are executed twice: on a cold object and after every public observable has been read on the very object (memo fields filled).  Individual semi-axis and rounding-radius setters are parameter setters: read-back and all other parameters "
-    "unchanged.  non-trivial = transition from a non-base state or with a target other than 2x."
+    "unchanged.  Also: integer-typed targets (Python int, numpy.int64; centre as a tuple of ints / an integer array); start states include tiny, negatively oriented, -z-normal and unsorted-axes shapes; malformed centre values must raise atomically.  non-trivial = transition from a non-base state or with a target other than 2x."
 )
 ASSUMPTIONS = ["targets over 1e-3..1e3 sampled at 4 ratios", "bounding-ball radii read back through miniball are compared at 1e-6 relative (miniball's epsilon)"]
 BOUNDS = {"quick": {"depth": "single step from depth<=1 states"}, "thorough": {"depth": "single step from depth<=2 states of the 3-D bases"}}
